@@ -32,6 +32,7 @@ APPEND_POST = [
 ]
 contract(
     "ascmhl.ignore.MHLIgnoreSpec._append_patterns_list",
+    slices=4,
     params={"patterns_to_append": "list[str]?"},
     modifies=["self._ignore_list"],
     ensures=APPEND_POST,
@@ -63,6 +64,7 @@ contract(
 DEFAULTS = "['.DS_Store', 'ascmhl', 'ascmhl/']"
 contract(
     "ascmhl.ignore.MHLIgnoreSpec.set_patterns",
+    slices=8,
     params={"existing_pattern_list": "list[str]?", "new_pattern_list": "list[str]?", "new_pattern_file": "str?"},
     modifies=["self._ignore_list"],
     ensures=[
